@@ -554,8 +554,10 @@ example : validateAccessToken (.jwkPtr (.rsaPriv "R1") "RS256" "enc") { good wit
 /-- recorded behaviour: ES384 is an ECDSA-family algorithm; whether a P-256 key's signature counts
     for it is inside the `signedBy` fact (go-jose's verifier does not compare curve and algorithm) -/
 example : validateAccessToken ec1 { good with alg := "ES384", signedBy := some "E1" } = .ok := by decide
-/-- the specification's monitor on the finding -/
-example : acceptViolations rsa1 jsonWitness = ["compact_form", "three_segments", "unsigned_header"] := by decide
+/-- the JSON re-wrapping is remarked upon, not a violation of C06 (it carries a valid signature of the
+    configured key under an asymmetric algorithm) -/
+example : acceptViolations rsa1 jsonWitness = [] := by decide
+example : serializationRemarks jsonWitness = ["compact_form", "three_segments", "unsigned_header"] := by decide
 example : acceptViolations rsa1 good = [] := by decide
 example : violations rsa1 good (fun _ => true) [] true (.rejected "invalid_token" 400) = ["rejected_valid"] := by decide
 example : violations rsa1 { good with alg := "none" } (fun _ => true) [] true (.rejected "token_signature_mismatch" 400) = [] := by decide
